@@ -26,6 +26,8 @@ THEOREMS = [
     "NfcVerif.C04.dep_success_complete",
     "NfcVerif.C04.dep_nothing_after_error",
     "NfcVerif.C04.dep_transaction_at_most_once",
+    "NfcVerif.C04.dep_foreign_did_silent",
+    "NfcVerif.C04.dep_rtox_request_counterexample",
     "NfcVerif.C04.dep_single_fault_recovered",
     "NfcVerif.C04.dep_single_fault_statement_repaired",
     "NfcVerif.C04.dep_frame_bound",
@@ -84,6 +86,12 @@ def run_real(c):
                             miu_i=c.miu_i, miu_t=c.miu_t, exc_name=exc_name)
 
 
+def run_rtox(c, t_rtox):
+    from sims import dep_air
+    return dep_air.run_pair(c.brty, c.did, c.nad, c.lri, c.lrt, c.script, c.rel, c.pi, c.pt,
+                            miu_i=c.miu_i, miu_t=c.miu_t, exc_name=exc_name, t_rtox=t_rtox)
+
+
 def isolated(script, gap=4):
     """no expiry, every two faults at least `gap` delivered frames apart"""
     if "x" in script:
@@ -102,7 +110,7 @@ def slug(msg):
     return "other"
 
 
-def oracle(ck, c, r):
+def oracle(ck, c, r, recovery=True):
     """the property stated on the real run; returns list of (key, what)"""
     out = []
     if r.got_t != c.pi[:len(r.got_t)]:
@@ -137,7 +145,7 @@ def oracle(ck, c, r):
                 out.append(("f20-target-frame-exceeds-lri", "%d transport bytes, LRi allows %d (DID %s): %s.."
                             % (n, LR[c.lri], o(c.did), h[:24])))
                 break
-    if (isolated(c.script) and not empty and c.did != 0 and len(c.pi) == len(c.pt)
+    if (recovery and isolated(c.script) and not empty and c.did != 0 and len(c.pi) == len(c.pt)
             and not any(k.startswith("f20") or k.startswith("f40") for k, _ in out)):
         if r.err_i != "ok" or r.got_t != c.pi or r.got_i != c.pt:
             s = slug(r.msg_i)
@@ -266,6 +274,9 @@ def probe_variant(ck):
     c = mk("106A", None, None, 0, 0, 4, 4, "lddx", 2, [b"\x01\x02"], [b"\x81"], "probe:f40")
     r = run_real(c)
     v.append("0" if r.status_t == "exc AttributeError" else "1")
+    # F41: Target application asks for a timeout extension, its next INF is lost, the RTOX request is repeated
+    r = run_rtox(mk("106A", None, None, 0, 0, 4, 4, "dddl", 0, [b"\x01", b"\x02"], [b"\x81", b"\x82"], "probe:f41"), {0: 2})
+    v.append("1" if r.err_i == "ok" else "0")
     return "".join(v)
 
 
@@ -358,6 +369,109 @@ def recovery_probe_cases(rng, depth):
                 resp.append(frame(brty, dep_body(False, 8, 0, did, None, b"")))
                 resp.append(frame(brty, dep_body(False, 0, 1 if chained else 0, did, None, b"\x77")))
                 yield brty, did, None, miu, script, resp, payload
+
+
+def target_script_case(rng, exc_name):
+    """a real Target driven by a compliant reference initiator whose frames are interleaved, at every
+    position, with frames the air may also carry: requests for ANOTHER target (foreign DID, DID-less or
+    with DID when the Target has none), NAD variants, repeated requests, ATN, NAK, RTOX requests, PSL/ATR/
+    DSL/RLS, corrupted frames.  returns (model line pieces, real canonical, oracle findings)"""
+    from sims import dep_air
+    brty = rng.choice(["106A", "212F"])
+    did = rng.choice([None, 3, 9])
+    foreign = [d for d in (None, 3, 7) if d != did]
+    miu_t = rng.choice([3, 5])
+    miu_i = rng.choice([2, 4])
+    n = rng.randrange(1, 5)
+    pi = [bytes(((17 * i + j + 1) & 255) for j in range(rng.choice([1, miu_i, miu_i + 1, 2 * miu_i + 1]))) for i in range(n)]
+    pt = [bytes(((0x80 + 13 * i + j) & 255) for j in range(rng.choice([1, miu_t, miu_t + 1, 2 * miu_t + 1]))) for i in range(n)]
+    H = dep_air.TargetHarness(brty, did, 0, pt, miu_t=miu_t, exc_name=exc_name)
+    sent, resps, findings = [], [], []
+    own_tox = [False]
+
+    def send(body, is_foreign=False):
+        f = H.frame(body)
+        r = H.deliver(f)
+        sent.append(f.hex())
+        resps.append(r.hex() if r is not None else "none")
+        if is_foreign and r is not None:
+            findings.append(("target-answers-foreign-did", "Target with DID %s answered %s to the frame %s addressed to "
+                             "another target" % (o(did), r.hex(), f.hex())))
+        return r
+
+    def perturb(next_body, last_body, pni):
+        k = rng.randrange(12)
+        fd = rng.choice(foreign)
+        if k == 0 and next_body is not None:      # the next request, for another target
+            pfb = next_body[2]
+            data = next_body[3 + (did is not None):]
+            send(dep_body(True, pfb >> 4, pfb & 3, fd, None, data), True)
+        elif k == 1:
+            send(dep_body(True, 8, 0, fd, None, b""), True)
+        elif k == 2:
+            send(dep_body(True, 5, pni, fd, None, b""), True)
+        elif k == 3:
+            send(bytes([0xD4, rng.choice([8, 10])]) + (bytes([fd]) if fd is not None else b""), True)
+        elif k == 4:
+            send(dep_body(True, rng.choice([0, 1, 4]), rng.randrange(4), fd, rng.choice([None, 5]), bytes([0xEE] * rng.randrange(0, 3))), True)
+        elif k == 5:
+            send(dep_body(True, 8, 0, did, None, b""))
+        elif k == 6:
+            send(dep_body(True, 5, pni, did, None, b""))
+        elif k == 7 and last_body is not None:    # retransmission
+            send(last_body)
+        elif k == 8:
+            own_tox[0] = True
+            send(dep_body(True, 9, 0, did, None, bytes([rng.choice([1, 2, 59])])))
+        elif k == 9:
+            send(bytes([0xD4, 4, did or 0, 0, 0]), did is None or False)   # PSL_REQ (did attribute 0 when unused)
+        elif k == 10:
+            H.corrupt()
+            sent.append("c")
+            resps.append("c")
+        elif k == 11 and next_body is not None:   # the next request with a NAD (nfcpy ignores the NAD)
+            pfb = next_body[2]
+            data = next_body[3 + (did is not None):]
+            send(dep_body(True, pfb >> 4, pfb & 3, did, 5, data))
+
+    pni, last, silent = 0, None, 0
+    done = False
+    for p in pi:
+        chunks = [p[i:i + miu_i] for i in range(0, len(p), miu_i)]
+        for ci, ch in enumerate(chunks):
+            body = dep_body(True, 1 if ci < len(chunks) - 1 else 0, pni, did, None, ch)
+            while rng.random() < 0.45:
+                perturb(body, last, pni)
+            r = send(body)
+            last = body
+            if r is None:
+                done = True
+                break
+            pni = (pni + 1) & 3
+        if done:
+            break
+        # collect the answer, acknowledge chained chunks
+        while r is not None and (r[(2 if brty == "106A" else 1) + 2] >> 4) == 1:
+            body = dep_body(True, 4, pni, did, None, b"")
+            while rng.random() < 0.45:
+                perturb(body, last, pni)
+            r = send(body)
+            last = body
+            pni = (pni + 1) & 3
+        if r is None:
+            break
+    for _ in range(rng.randrange(0, 3)):
+        perturb(None, last, pni)
+    if rng.random() < 0.5:
+        send(bytes([0xD4, rng.choice([8, 10])]) + (bytes([did]) if did is not None else b""))
+    got, status = H.stop()
+    real = "R %s | T %s %s" % (",".join(resps) or "-", plist(got), status)
+    if got != pi[:len(got)]:
+        key = "f41-repeated-rtox-request-accepted" if own_tox[0] else "target-payload-wrong-duplicated-or-reordered"
+        findings.append((key, "Target.exchange returned %s, the initiator sent %s" % (plist(got), plist(pi))))
+    if status.startswith("exc ") and status[4:] not in COMM:
+        findings.append(("target-internal-exception-" + status[4:], "Target.exchange raised %s (%s)" % (status, H.msg)))
+    return (brty, did, miu_t, sent, pt), real, findings
 
 
 def canon_pdu(obj, raw_body):
@@ -476,7 +590,7 @@ def run(ck):
 
     # ---------------------------------------------------------- which tree is this? (witnesses of the known defects)
     variant = probe_variant(ck)
-    ck.notes.append("variant of the tree under test (F20,F26,F27,F40; 1 = repaired): " + variant)
+    ck.notes.append("variant of the tree under test (F20,F26,F27,F40,F41; 1 = repaired): " + variant)
 
     # activation table from the model
     combos = [(lri, lrt, did, nad) for lri in range(4) for lrt in range(4) for did in (None, 0, 1, 3, 7, 9, 14, 255) for nad in (None, 5)]
@@ -570,6 +684,76 @@ def run(ck):
             tie_fail("tie:c04-initiator-vs-scripted-responder", "model %r, implementation %r" % (rep, real),
                     {"request": line, "model": rep, "impl": real})
     ck.tie("Initiator model vs real Initiator.exchange against scripted responses", cases=len(slines), disagreements=sdis, exhaustive=False)
+
+    # ---------------------------------------------------------- Target against scripted requests (foreign DID ...)
+    tlines, treal = [], []
+    for i in range(5000 if ck.thorough else 700):
+        try:
+            (brty, did, miu_t, sent, tpt), real, findings = target_script_case(rng, exc_name)
+        except dep_air.Stall as e:
+            ck.fail("dep-stall", "scripted target stalled: %s" % e, {"case": i})
+            continue
+        line = "tgt %d %s %d %s %s %s" % (brty == "106A", o(did), miu_t, variant, ",".join(sent) or "-", plist(tpt))
+        tlines.append(line)
+        treal.append(real)
+        ck.case(("tgt", brty, did, miu_t, tuple(sent), tuple(tpt)), True, "scripted-initiator")
+        ck.count("scripted-initiator-frames", len(sent))
+        for key, what in findings:
+            ck.fail(key, what, {"request": line, "impl": real})
+    tdis = 0
+    for line, real, rep in zip(tlines, treal, model.ask_many(tlines)):
+        if rep != real:
+            tdis += 1
+            tie_fail("tie:c04-target-vs-scripted-initiator", "model %r, implementation %r" % (rep, real),
+                     {"request": line, "model": rep, "impl": real})
+    ck.tie("Target model vs real Target driven frame by frame (foreign-DID, DID-less, NAD, repeated, RTOX, DSL/RLS frames "
+           "at every position)", cases=len(tlines), disagreements=tdis, exhaustive=False)
+
+    # ---------------------------------------------------------- oracle only: the Target application requests timeout extensions
+    for i in range(3000 if ck.thorough else 400):
+        c = isolated_case(rng) if i % 2 else random_case(rng, long_conv=(i % 7 == 0), did0=False)
+        if "x" in c.script or any(len(p) == 0 for p in c.pi + c.pt):
+            continue
+        t_rtox = {k: rng.choice([1, 2, 3]) for k in range(len(c.pt)) if rng.random() < 0.4}
+        if not t_rtox:
+            t_rtox = {rng.randrange(len(c.pt)): 2}
+        try:
+            r = run_rtox(c, t_rtox)
+        except dep_air.Stall as e:
+            ck.fail("dep-stall", "the two nfc.dep objects stalled (RTOX run): %s" % e, replay_of(c))
+            continue
+        ck.case(("rtox", tuple(sorted(t_rtox.items())), c.brty, c.did, c.script, c.pi, c.pt), True, "target-rtox-oracle")
+        rp = replay_of(c)
+        rp["t_rtox"] = t_rtox
+        # safety only: a fault on the RTOX PDUs themselves is not recoverable by design (the Initiator
+        # refuses an RTOX response to NAK/ATN, pinned by the test-suite)
+        for key, what in oracle(ck, c, r, recovery=False):
+            if key.startswith("target-payload") and variant[4] == "0":
+                key = "f41-repeated-rtox-request-accepted"
+            ck.fail(key, what + " [Target application requested timeout extensions %s]" % t_rtox, rp)
+    # F41 family: after the RTOX exchange the Target's next information PDU is lost or corrupted, at every
+    # packet number: must be recovered, nothing invented
+    for brty, did in (("106A", None), ("212F", 3)):
+        pi6 = [bytes([i + 1]) for i in range(6)]
+        pt6 = [bytes([0x81 + i, 0x91 + i, 0xA1 + i]) for i in range(6)]
+        for k in range(6):
+            for fault in "lc":
+                c = mk(brty, did, None, 0, 0, 4, 2, "", 0, pi6, pt6, "f41-family")
+                base = run_rtox(c, {k: 2})
+                idx = [i for i, (d, h, f) in enumerate(base.wire) if d == ">" and "d4069" in h[:12]]
+                if not idx:
+                    ck.fail("tie:c04-rtox-family", "no RTOX request on the wire", replay_of(c))
+                    continue
+                c["script"] = "d" * (idx[0] + 1) + fault
+                r = run_rtox(c, {k: 2})
+                ck.case(("f41", brty, did, k, fault), True, "f41-family")
+                rp = replay_of(c)
+                rp["t_rtox"] = {k: 2}
+                if r.got_t != pi6[:len(r.got_t)] or r.err_i != "ok" or r.got_t != pi6 or r.got_i != pt6:
+                    ck.fail("f41-repeated-rtox-request-accepted",
+                            "timeout extension before answer %d, then the Target's INF %s: Initiator %s (%s), Target returned %s, "
+                            "status %s (%s)" % (k, {"l": "lost", "c": "corrupted"}[fault], r.err_i, r.msg_i, plist(r.got_t),
+                                                 r.status_t, r.msg_t), rp)
 
     # ---------------------------------------------------------- codec
     cc = codec_cases(ck, rng)
